@@ -4,9 +4,10 @@
    (every Use preceded by its Def), every call made in a JavaScript factory targets a function, the Python
    module defines (and the decorator registers) one class per message, JavaScript factory results share no object.
 
-   FULL STATEMENTS (over every accepted closure of documented constructs) are false of the current code;
-   each is kept as `*_refuted` (witness by vm_compute, replayed on the real loaders by vlib/props/C15.py) next
-   to a `*_partial` theorem under a decidable exclusion naming the construct class. *)
+   C15_total, C15_js_fresh hold in full (after the fixes 55760b3, f7d117e, 4581550, 35347c0, cf903f5 in /repo).
+   The scoping statements (over every accepted closure) are still false of the current code for the emission-order
+   construct classes; each is kept as `*_refuted` (witness by vm_compute, replayed on the real loaders by
+   vlib/props/C15.py) next to a `*_partial` theorem under a decidable exclusion naming the construct class. *)
 From Coq Require Import ZArith List Bool String Lia.
 From Defs Require Import Gen.TypeTables Model.Layout Model.Emit Proofs.LayoutProofs Proofs.TablesProofs
   Proofs.EmitCombined Proofs.EmitScope Proofs.EmitJs Proofs.EmitTotal.
@@ -14,24 +15,23 @@ Import ListNotations.
 Open Scope string_scope. Open Scope list_scope. Open Scope Z_scope.
 
 (* ---------------------------------------------------------------- C15_total: no internal error
-   FULL: forall ap l k, parse_items ap l <> PCrash k. *)
-Theorem C15_total_partial : forall ap l,
-  plain_run ap l ps_empty = true -> forall k, parse_items ap l <> PCrash k.
-Proof.
-  intros ap l Hp k E. pose proof (run_plain_no_crash ap l ps_empty InvW_empty Hp) as G.
-  unfold parse_items in E. rewrite E in G. exact G.
-Qed.
+   for EVERY closure: the model of Parser.parse (add_fields, check_alignment, the final ctypes size assert with
+   get_ctype_cls's own table and its alias branches) accepts or rejects with a parser error; it never crashes. *)
+Theorem C15_total : forall ap l k, parse_items ap l <> PCrash k.
+Proof. exact parse_never_crashes. Qed.
 
-(* `signed char` is accepted by add_fields and unknown to get_ctype_cls: KeyError *)
-Definition signed_char_items : list item := [IStruct "S" (BFields [mkFd "a" "signed char" None])].
-(* a field whose type is an alias of an (imported) struct: get_ctype_cls puts an int into _fields_: TypeError *)
+Corollary C15_total_closure : forall ap c k, parse_closure ap c <> PCrash k.
+Proof. intros ap c k. unfold parse_closure. destruct (closure_items c); [apply parse_never_crashes|discriminate]. Qed.
+
+(* the two shapes that used to crash are accepted: `signed char`, and a field whose type is an alias of a struct *)
+Definition signed_char_items : list item :=
+  [IAlias "SC" "signed char"; IStruct "S" (BFields [mkFd "a" "signed char" None; mkFd "b" "SC" (Some (CLit 3))])].
 Definition alias_struct_field_closure : closure :=
-  [mkFile [1]%nat [IAlias "B" "S0"; IStruct "T" (BFields [mkFd "x" "B" None])];
+  [mkFile [1]%nat [IAlias "B" "S0"; IStruct "T" (BFields [mkFd "x" "B" (Some (CLit 2)); mkFd "y" "int8" None])];
    mkFile [] [IStruct "S0" (BFields [mkFd "a" "int32" None])]].
-
-Theorem C15_total_refuted :
-  parse_items true signed_char_items = PCrash XKey /\ parse_closure true alias_struct_field_closure = PCrash XType.
-Proof. split; vm_compute; reflexivity. Qed.
+Example C15_total_ex : (exists st, parse_items true signed_char_items = POk st /\ map pd_size (ps_structs st) = [4]) /\
+  (exists st, parse_closure true alias_struct_field_closure = POk st /\ map pd_size (ps_structs st) = [4; 12]).
+Proof. split; eexists; split; vm_compute; reflexivity. Qed.
 
 (* ---------------------------------------------------------------- C15_scoped, per back end
    FULL: forall ap l st, parse_items ap l = POk st -> scoped [] (events_b st) = true. *)
@@ -49,14 +49,14 @@ Theorem C15_scoped_matlab_partial : forall ap l st, parse_items ap l = POk st ->
   scoped [] (events_matlab st) = true.
 Proof. intros ap l st H. apply scoped_matlab. exact (parsed_inv _ _ _ H). Qed.
 
-(* JavaScript: the module imports, and every call inside a factory targets a function *)
+(* JavaScript: the module imports, and every call inside a factory targets a function (type_map.<native>,
+   RTMA.aliases.<alias of a native>, RTMA.SDF.<struct>, RTMA.MDF.<message>) *)
 Theorem C15_scoped_js_partial : forall ap l st, parse_items ap l = POk st ->
-  no_alias_of_struct st = true -> no_alias_field st = true -> js_natives_known st = true ->
-  js_import_ok st = true /\ js_calls_ok st = true.
+  no_alias_of_struct st = true -> js_import_ok st = true /\ js_calls_ok st = true.
 Proof.
-  intros ap l st H Ha Hf Hk. split.
+  intros ap l st H Ha. split.
   - apply scoped_js_load. unfold no_alias_of_struct in Ha. apply andb_true_iff in Ha. tauto.
-  - apply js_static_ok; auto. exact (parsed_inv _ _ _ H).
+  - apply js_static_ok; auto; [exact (parsed_inv _ _ _ H)|]. apply parsed_js_natives. exact (proj1 (parsed_invw _ _ _ H)).
 Qed.
 
 (* the Python module defines one decorated class per message (what pyrtma.message_def registers) *)
@@ -93,9 +93,10 @@ Theorem C15_scoped_refuted_struct_of_msg : exists st st',
   parse_closure true struct_reuses_msg_closure = POk st' /\ scoped [] (events_py st') = false /\ scoped [] (events_c st') = false.
 Proof. eexists. eexists. repeat split; vm_compute; reflexivity. Qed.
 
-Theorem C15_scoped_refuted_js_alias_field : exists st,
-  parse_items true alias_field_items = POk st /\ js_import_ok st = true /\ js_calls_ok st = false /\
-  js_factory st (JSdf "S1") = (false, false).
+(* an alias of a native type used as a field type: the factory now calls a function *)
+Example C15_js_alias_field_ok : exists st,
+  parse_items true alias_field_items = POk st /\ js_import_ok st = true /\ js_calls_ok st = true /\
+  js_factory st (JSdf "S1") = (true, true).
 Proof. eexists. repeat split; vm_compute; reflexivity. Qed.
 
 Theorem C15_scoped_refuted_matlab_header : exists st,
@@ -104,31 +105,32 @@ Theorem C15_scoped_refuted_matlab_header : exists st,
 Proof. eexists. repeat split; vm_compute; reflexivity. Qed.
 
 (* ---------------------------------------------------------------- C15_js_fresh
-   FULL: every successful factory call returns a value without shared objects. *)
-Theorem C15_js_fresh_partial : forall st, no_shared_fill st = true ->
-  forall fuel c cnt v cnt', js_call st fuel c cnt = JOk (v, cnt') -> js_fresh v = true.
-Proof. exact js_fresh_partial. Qed.
+   for EVERY parsed state and every successful factory call: no object is reachable twice in the result
+   (array elements are pairwise distinct objects), and two calls never share an object. *)
+Theorem C15_js_fresh : forall st fuel c cnt v cnt', js_call st fuel c cnt = JOk (v, cnt') -> js_fresh v = true.
+Proof. exact js_fresh_always. Qed.
 
-Theorem C15_js_calls_disjoint : forall st, no_shared_fill st = true ->
-  forall f1 f2 c1 c2 v1 v2 n1 n2, js_call st f1 c1 0 = JOk (v1, n1) -> js_call st f2 c2 n1 = JOk (v2, n2) ->
+Theorem C15_js_calls_disjoint : forall st f1 f2 c1 c2 v1 v2 n1 n2,
+  js_call st f1 c1 0 = JOk (v1, n1) -> js_call st f2 c2 n1 = JOk (v2, n2) ->
   forall id, In id (obj_ids v1) -> ~ In id (obj_ids v2).
 Proof. exact js_calls_disjoint. Qed.
 
 Definition struct_array_items : list item :=
   [IStruct "S0" (BFields [mkFd "q" "uint16" None]); IStruct "S1" (BFields [mkFd "a" "S0" (Some (CLit 3))])].
-Theorem C15_js_fresh_refuted : exists st,
-  parse_items true struct_array_items = POk st /\ js_factory st (JSdf "S1") = (true, false).
-Proof. eexists. split; vm_compute; reflexivity. Qed.
+Example C15_js_fresh_ex : exists st v n,
+  parse_items true struct_array_items = POk st /\ js_call st (js_fuel st) (JSdf "S1") 0 = JOk (v, n) /\
+  List.length (obj_ids v) = 5%nat /\ js_fresh v = true.
+Proof. eexists. eexists. eexists. split; [vm_compute; reflexivity|]. split; [vm_compute; reflexivity|]. split; reflexivity. Qed.
 
 (* ---------------------------------------------------------------- non-vacuity: a closure with every construct the
-   exclusions leave (constants, expressions, aliases of natives and of aliases, nested structs and messages,
-   arrays, signals, reuse, reserved ids, two files, auto padding, a user RTMA_MSG_HEADER) loads everywhere *)
+   exclusions leave (constants, expressions, aliases of natives and of aliases used as field types, `signed char`,
+   nested structs and messages, arrays of natives and of structs, signals, reuse, reserved ids, two files, auto padding, a user RTMA_MSG_HEADER) loads everywhere *)
 Definition ex_closure : closure :=
   [mkFile [1]%nat
      [IConst "N" (CLit 3); IConst "M" (CAdd (CMul (CRef "N") (CLit 2)) (CRef "K"));
       IAlias "A16" "int16"; IAlias "AA" "A16"; IHid "H1" 11; IMid "D1" 21;
       IStruct "S1" (BFields [mkFd "a" "char" (Some (CRef "N")); mkFd "b" "int32" None; mkFd "c" "uint8" None;
-                             mkFd "d" "int16" None; mkFd "e" "S0" None]);
+                             mkFd "d" "AA" None; mkFd "e" "S0" (Some (CLit 2)); mkFd "f" "signed char" None]);
       IStruct "RTMA_MSG_HEADER" (BFields [mkFd "msg_type" "int32" None; mkFd "n" "int32" None]);
       IMsg "M1" 1000 (Some (BFields [mkFd "s" "S1" None; mkFd "t" "float" (Some (CRef "M")); mkFd "u" "double" None]));
       IMsg "M0" 900 (Some (BFields [mkFd "m" "M1" None; mkFd "h" "RTMA_MSG_HEADER" None]));
@@ -137,10 +139,9 @@ Definition ex_closure : closure :=
                    IStruct "S0" (BFields [mkFd "q" "unsigned short" (Some (CLit 2)); mkFd "r" "long" None])]].
 
 Example C15_ex_loads_everywhere : exists l st,
-  closure_items ex_closure = Some l /\ plain_run true l ps_empty = true /\ parse_closure true ex_closure = POk st /\
-  no_alias_of_struct st = true /\ no_msg_in_struct st = true /\ no_alias_field st = true /\ js_natives_known st = true /\
-  has_msg_header st = true /\ no_shared_fill st = true /\
+  closure_items ex_closure = Some l /\ parse_closure true ex_closure = POk st /\
+  no_alias_of_struct st = true /\ no_msg_in_struct st = true /\ has_msg_header st = true /\
   loads4 st = (true, true, true, true) /\ js_calls_ok st = true /\
   forallb (fun d => let '(ok, fr) := js_factory st (JSdf (pd_name d)) in ok && fr) (ps_structs st) = true /\
   forallb (fun d => let '(ok, fr) := js_factory st (JMdf (pd_name d)) in ok && fr) (ps_msgs st) = true.
-Proof. eexists. eexists. split; [vm_compute; reflexivity|]. split; [vm_compute; reflexivity|]. split; [vm_compute; reflexivity|]. vm_compute. repeat split; reflexivity. Qed.
+Proof. eexists. eexists. split; [vm_compute; reflexivity|]. split; [vm_compute; reflexivity|]. vm_compute. repeat split; reflexivity. Qed.
